@@ -757,7 +757,8 @@ Section Sim.
     apply msim_mbind; [exact msim_s_get_method|]. intros meth.
     destruct (_ && _)%bool; [apply msim_mret|].
     apply msim_mbind; [apply msim_mtry, msim_s_get_dialog|]. intros [d|]; [|apply msim_mret].
-    destruct (pins_get (e_now e) d (ps_pins p)) as [pins1 ob].
+    destruct (pins_get (e_now e) d (ps_pins p)) as [pins1 ob]. cbv zeta.
+    destruct (_ && _)%bool; [apply msim_mret|].
     apply msim_mbind; [apply msim_mtry; exact (msim_read _ H_sub_state)|]. intros ss. apply msim_mret.
   Qed.
   Lemma msim_handle_dialog e peer pp p : msim (handle_dialog e peer pp p).
